@@ -496,7 +496,10 @@ func diffClass(in, re []byte) string {
 }
 
 // mutants of a canonical encoding
-func c14Mutants(enc []byte, full bool, emit func([]byte)) {
+func c14Mutants(enc []byte, full bool, emit func([]byte)) { c14MutantsOf(enc, full, true, emit) }
+
+// c14MutantsOf: truncations, extensions and offset windows; single-byte mutants only if bytesToo.
+func c14MutantsOf(enc []byte, full, bytesToo bool, emit func([]byte)) {
 	n := len(enc)
 	clone := func() []byte { return append([]byte{}, enc...) }
 	// truncations and extensions
@@ -537,7 +540,7 @@ func c14Mutants(enc []byte, full bool, emit func([]byte)) {
 		prev = v
 	}
 	// single bytes
-	for i := 0; i < lim; i++ {
+	for i := 0; bytesToo && i < lim; i++ {
 		for _, nv := range []byte{0, 1, 0x7f, 0x80, 0xff, enc[i] + 1, enc[i] ^ 0x01} {
 			if nv == enc[i] {
 				continue
